@@ -4,6 +4,9 @@ import Mimic.Packets
 import Mimic.Extracted.Types
 import Mimic.Extracted.ParsersCode
 import MimicProofs.Types
+import Mimic.Params
+set_option linter.unusedSimpArgs false
+set_option linter.unusedVariables false
 /-!
 The client-packet parsers of `packets.py` as translated by `harness/pytrans2.py` (`Mimic.Extracted.ParsersCode`,
 regenerated from the source on every run) against the hand-written models of `Mimic.Wire` / `Mimic.Packets` /
@@ -11,7 +14,7 @@ regenerated from the source on every run) against the hand-written models of `Mi
 chose is enough (the loop terminates for every input), so the `none` of exhausted fuel never occurs.
 -/
 namespace MimicProofs.ParsersCode
-open Mimic.Py Mimic.Extracted.ParsersCode
+open Mimic.Py Mimic.Extracted.ParsersCode MimicProofs.Types
 
 /-! ### `read_str_null` -/
 
@@ -70,5 +73,82 @@ theorem read_str_null_eq (r : Bytes) : read_str_null r = some (Mimic.Wire.readNu
 /-- termination stated on its own: the fuel chosen by the translator is never exhausted -/
 theorem read_str_null_terminates (r : Bytes) : Mimic.Py.loopM (r.length + 1) (([] : Bytes), r) nulStep ≠ none := by
   rw [nul_loop r [] (r.length + 1) (by omega)]; simp
+
+/-! ### fixed-layout statement commands -/
+
+theorem parse_com_stmt_close_eq (data : Bytes) :
+    (parse_com_stmt_close (S := Unit) data).map (·.stmt_id) = Mimic.Packets.parseStmtId data := by
+  unfold parse_com_stmt_close Mimic.Packets.parseStmtId
+  simp only [read_uint_4_eq]
+  cases Mimic.Wire.readUInt 4 data <;> rfl
+
+theorem parse_com_stmt_reset_eq (data : Bytes) :
+    (parse_com_stmt_reset (S := Unit) data).map (·.stmt_id) = Mimic.Packets.parseStmtId data := by
+  unfold parse_com_stmt_reset Mimic.Packets.parseStmtId
+  simp only [read_uint_4_eq]
+  cases Mimic.Wire.readUInt 4 data <;> rfl
+
+theorem parse_handle_stmt_fetch_eq (data : Bytes) :
+    (parse_handle_stmt_fetch (S := Unit) data).map (fun x => (x.stmt_id, x.num_rows)) = Mimic.Packets.parseFetch data := by
+  unfold parse_handle_stmt_fetch Mimic.Packets.parseFetch
+  simp only [read_uint_4_eq]
+  cases h : Mimic.Wire.readUInt 4 data with
+  | none => rfl
+  | some p => obtain ⟨a, r⟩ := p; simp only; cases Mimic.Wire.readUInt 4 r <;> rfl
+
+theorem parse_com_stmt_send_long_data_eq (data : Bytes) :
+    (parse_com_stmt_send_long_data (S := Unit) data).map (fun x => (x.stmt_id, x.param_id, x.data)) = Mimic.Packets.parseLongData data := by
+  unfold parse_com_stmt_send_long_data Mimic.Packets.parseLongData
+  simp only [read_uint_4_eq, read_uint_2_eq]
+  cases h : Mimic.Wire.readUInt 4 data with
+  | none => rfl
+  | some p => obtain ⟨a, r⟩ := p; simp only; cases Mimic.Wire.readUInt 2 r <;> rfl
+
+/-! ### parameter values (`_read_param_value`) -/
+
+def toPVal : Val (List Char) → Mimic.Params.PVal
+  | .none => .null
+  | .int z => .int z
+  | .str s => .str s
+  | .flt b => .flt b
+
+theorem readFlt_eq (k : Nat) (r : Bytes) :
+    (Mimic.Py.readFlt (S := List Char) k r).map (fun x => (toPVal x.1, x.2)) = (Mimic.Wire.takeN k r).map (fun x => (Mimic.Params.PVal.flt x.1, x.2)) := by
+  unfold Mimic.Py.readFlt Mimic.Wire.takeN
+  split <;> simp [toPVal]
+
+theorem read_param_value_eq (E : Env (List Char)) (r : Bytes) (cs code : Nat) (u : Bool) (nm : Bytes) :
+    (read_param_value E r cs code u).map (fun x => (toPVal x.1, x.2))
+      = Mimic.Params.readValue (E.decode cs) ⟨code, u, nm⟩ r := by
+  unfold read_param_value Mimic.Params.readValue Mimic.Params.readInt Mimic.Params.strCodes Mimic.Wire.readSInt
+  simp only [read_uint_1_eq, read_uint_2_eq, read_uint_4_eq, read_uint_8_eq, read_int_1_eq, read_int_2_eq, read_int_4_eq, read_int_8_eq,
+    read_str_len_eq, Mimic.Wire.readSInt]
+  by_cases h0 : [15, 253, 254, 252, 249, 250, 251].contains code
+  · simp only [h0, if_true]
+    cases Mimic.Wire.decStr r with
+    | none => rfl
+    | some p => obtain ⟨s, r'⟩ := p; simp only; cases E.decode cs s <;> simp [toPVal]
+  · simp only [h0, Bool.false_eq_true, if_false, List.contains_cons, List.contains_nil, Bool.or_false, Bool.or_eq_true, beq_iff_eq, if_true]
+    by_cases c1 : code = 1
+    · simp only [c1, if_true]; cases u <;> cases Mimic.Wire.readUInt 1 r <;> simp [toPVal]
+    by_cases c244 : code = 244
+    · simp only [c244, if_true]; cases Mimic.Wire.readUInt 1 r <;> simp [toPVal]
+    by_cases c2 : code = 2 ∨ code = 13
+    · simp only [c1, c244, c2, if_true, if_false]; cases u <;> cases Mimic.Wire.readUInt 2 r <;> simp [toPVal]
+    by_cases c3 : code = 3 ∨ code = 9
+    · simp only [c1, c244, c2, c3, if_true, if_false]; cases u <;> cases Mimic.Wire.readUInt 4 r <;> simp [toPVal]
+    by_cases c8 : code = 8
+    · simp only [c1, c244, c2, c3, c8, if_true, if_false]; cases u <;> cases Mimic.Wire.readUInt 8 r <;> simp [toPVal]
+    by_cases c4 : code = 4
+    · simp only [c1, c244, c2, c3, c8, c4, if_true, if_false]
+      have := readFlt_eq 4 r
+      cases h : Mimic.Py.readFlt (S := List Char) 4 r <;> simp [h] at this ⊢ <;> exact this
+    by_cases c5 : code = 5
+    · simp only [c1, c244, c2, c3, c8, c4, c5, if_true, if_false]
+      have := readFlt_eq 8 r
+      cases h : Mimic.Py.readFlt (S := List Char) 8 r <;> simp [h] at this ⊢ <;> exact this
+    by_cases c6 : code = 6
+    · simp [c6, toPVal]
+    · simp [c1, c244, c2, c3, c8, c4, c5, c6]
 
 end MimicProofs.ParsersCode
